@@ -8,9 +8,9 @@ pub fn gen(tier: &str, seed: u64, out: &mut dyn FnMut(Value)) {
     let mut rng = Rng::new(seed);
     let thorough = tier == "thorough";
     let cfg = Cfg::default();
-    gen_random(&mut rng, &cfg, if thorough { 40000 } else { 2500 }, "random rule set", (1, 6), out);
+    gen_random(&mut rng, &cfg, if thorough { 200000 } else { 10000 }, "random rule set", (1, 6), out);
     let cfg2 = Cfg { max_rules: 8, dep_prob: (1, 2), n_events: 8, ..Cfg::default() };
-    gen_random(&mut rng, &cfg2, if thorough { 20000 } else { 1000 }, "random rule set, dependency heavy", (1, 10), out);
+    gen_random(&mut rng, &cfg2, if thorough { 100000 } else { 4000 }, "random rule set, dependency heavy", (1, 10), out);
     let cfg3 = Cfg { err_ops: false, quant_prob: (1, 2), match_on: false, ..Cfg::default() };
-    gen_random(&mut rng, &cfg3, if thorough { 20000 } else { 1000 }, "random rule set, quantifier heavy, no errors", (0, 1), out);
+    gen_random(&mut rng, &cfg3, if thorough { 100000 } else { 4000 }, "random rule set, quantifier heavy, no errors", (0, 1), out);
 }
